@@ -15,9 +15,12 @@ import (
 	"github.com/moorara/algo/automata"
 	"github.com/moorara/algo/generic"
 	"github.com/moorara/algo/grammar"
+	"github.com/moorara/algo/graph"
 	"github.com/moorara/algo/hash"
 	"github.com/moorara/algo/heap"
 	"github.com/moorara/algo/lexer"
+	"github.com/moorara/algo/lexer/input"
+	"github.com/moorara/algo/list"
 	"github.com/moorara/algo/parser"
 	"github.com/moorara/algo/parser/lr"
 	"github.com/moorara/algo/parser/lr/canonical"
@@ -626,6 +629,65 @@ func wlHelpers(inst int) string {
 	return dig(out...)
 }
 
+// ---------------------------------------------------------------- lists, graphs, the input reader
+
+func wlMisc(inst int) string {
+	r := &sm{s: uint64(8000 + inst)}
+	eq := generic.NewEqualFunc[int]()
+	var out []string
+	q, st, sq := list.NewQueue[int](4, eq), list.NewStack[int](4, eq), list.NewSoftQueue[int](eq)
+	var seq []string
+	for i := 0; i < 90; i++ {
+		v := r.intn(1000) + inst
+		q.Enqueue(v)
+		st.Push(v)
+		sq.Enqueue(v)
+		if i%3 == 2 {
+			a, _ := q.Dequeue()
+			b, _ := st.Pop()
+			c, _ := sq.Dequeue()
+			seq = append(seq, fmt.Sprint(a, b, c))
+		}
+	}
+	out = append(out, strings.Join(seq, ","), fmt.Sprint(q.Size(), st.Size()))
+	n := 24 + inst%5
+	ug, dg := graph.NewUndirected(n), graph.NewDirected(n)
+	for i := 0; i < 3*n; i++ {
+		v, w := r.intn(n), r.intn(n)
+		ug.AddEdge(v, w)
+		if v < w {
+			dg.AddEdge(v, w)
+		}
+	}
+	for _, s := range []graph.TraversalStrategy{graph.DFS, graph.DFSi, graph.BFS} {
+		p, _ := ug.Paths(0, s).To(n - 1)
+		o := dg.Orders(s)
+		out = append(out, fmt.Sprint(p), fmt.Sprint(o.PreOrder(), o.PostOrder()))
+	}
+	to, ok := dg.Topological().Order()
+	out = append(out, fmt.Sprint(ug.ConnectedComponents().Components()), fmt.Sprint(dg.StronglyConnectedComponents().Components()), fmt.Sprint(to, ok), ug.DOT())
+	src := strings.Repeat(fmt.Sprintf("héllo-%d wörld ", inst), 40)
+	in, err := input.New("f", strings.NewReader(src), 64)
+	if err == nil {
+		var rs []rune
+		for k := 0; k < 2000; k++ {
+			c, e := in.Next()
+			if e != nil {
+				break
+			}
+			rs = append(rs, c)
+			if k%17 == 16 {
+				lx, _ := in.Lexeme()
+				out = append(out, lx)
+			}
+		}
+		out = append(out, string(rs))
+	} else {
+		out = append(out, "input.New: "+err.Error())
+	}
+	return dig(out...)
+}
+
 var workloads = []workload{
 	{"hashtables", "fill and iterate own chain/linear/quadratic/double hash tables (own hash functions)", wlHashTables},
 	{"ordered", "own BST/AVL/red-black tables", wlOrderedTables},
@@ -640,5 +702,6 @@ var workloads = []workload{
 	{"lalr", "LALR tables and parses of own grammars", wlLALR},
 	{"lr1", "canonical LR(1) tables and parses of own grammars", wlLR1},
 	{"helpers", "own tables and sets keyed through the library's exported package-level Hash*/Eq*/Cmp* values (automata, lr, grammar)", wlHelpers},
+	{"misc", "own queues/stacks, graphs (traversals, components, topological order, DOT), two-buffer input reader", wlMisc},
 	{"automata", "own NFA: subset construction, minimisation, dead-state elimination, reindexing, combinators", wlAutomata},
 }
